@@ -334,6 +334,13 @@ def mk_fn(name, *args):
         if p.is_const() and p.const_value().denominator == 1 and abs(p.const_value()) <= 40:
             v = int(p.const_value())
             return Poly.const(Fraction(10) ** v if v >= 0 else Fraction(1, 10 ** (-v)))
+    if name == 'rev' and len(args) == 1 and args[0][0] == 'B':
+        inner = Poly.from_key(args[0][2])
+        if inner.is_monomial():
+            (m, c), = inner.t.items()
+            if c == 1 and len(m) == 1 and m[0][1] == 1 and m[0][0][0] == 'fn' and m[0][0][1] == 'rev' and m[0][0][2][0] == 'B' \
+                    and m[0][0][2][1] == args[0][1]:
+                return Poly.from_key(m[0][0][2][2])        # rev(rev(x)) = x
     if name == 'abs' and len(args) == 1 and args[0][0] == 'P':
         p = Poly.from_key(args[0][1])
         if p.is_const():
